@@ -111,7 +111,7 @@ func solveOneR(file string, timeoutS int, seed int, secondRound bool) solveResul
 		}
 	}
 	// second round: the same query with other random seeds (guards against unlucky heuristics)
-	if secondRound && (last.result == "timeout" || last.result == "unknown") {
+	if secondRound && os.Getenv("VERIF_NOSECOND") == "" && (last.result == "timeout" || last.result == "unknown") {
 		type sr struct{ r solveResult }
 		ch2 := make(chan solveResult, 4)
 		ctx2, cancel2 := context.WithCancel(context.Background())
